@@ -768,7 +768,7 @@ def _explain(bad, m, r):
     if a == "Timeout":
         return head + "the execution did not finish within its CPU / wall budget and was killed (termination clause)"
     if a == "LoopOverrun":
-        return head + (f"a `while` loop of the library did not stop within 256 * len(input) + 2^20 iterations: "
+        return head + (f"a `while` loop of the library did not stop within 16 * len(input) + 2^21 iterations: "
                        f"{r.get('loop_over')} (termination clause, progress monitor)")
     if a == "WorkerDied":
         return head + f"the worker process died (rc={r.get('rc')}) while extracting"
